@@ -1,4 +1,4 @@
 package main
 
-func newOCWorld(nk, nb, rep int) machine { panic("todo") }
+
 func random(part string, n int, out, res string, nk, nb int) { panic("todo") }
